@@ -1,6 +1,7 @@
 """Counterexample replay against the real build, and known-finding matching."""
 import json
 import os
+import re
 import sys
 
 HERE = os.path.dirname(os.path.abspath(__file__))
@@ -12,7 +13,7 @@ def replay_violation(pid, res, v, mod, cfg):
     os.makedirs(REPLAYS, exist_ok=True)
     n = 0
     while True:
-        path = os.path.join(REPLAYS, '%s-%s-%d.json' % (pid, res.id.replace('.', '_'), n))
+        path = os.path.join(REPLAYS, '%s-%s-%d.json' % (pid, re.sub(r'[^A-Za-z0-9]+', '_', res.id), n))
         if not os.path.exists(path) or n > 50:
             break
         n += 1
